@@ -514,8 +514,13 @@ func check(id, tier string) int {
 		"violations":  len(reported),
 	}
 	eb, _ := json.MarshalIndent(ev, "", " ")
-	os.MkdirAll(filepath.Join(verifDir, "evidence"), 0755)
-	if err := os.WriteFile(filepath.Join(verifDir, "evidence", id+".json"), eb, 0644); err != nil {
+	evDir := filepath.Join(verifDir, "evidence")
+	if os.Getenv("VERIF_REPO") != "" {
+		// a run against another tree (sensitivity experiments) must not overwrite the evidence of /repo
+		evDir = filepath.Join(verifDir, "evidence", "alt")
+	}
+	os.MkdirAll(evDir, 0755)
+	if err := os.WriteFile(filepath.Join(evDir, id+".json"), eb, 0644); err != nil {
 		trouble("writing evidence: %v", err)
 	}
 	fmt.Printf("%s %s: %d runs (%d non-trivial, %d distinct interleavings) in %.0fs, %d distinct violation(s), exit %d\n",
